@@ -70,6 +70,10 @@ var roots = []string{
 	"babyjub.SignatureComp.String",
 	"babyjub.SignatureComp.UnmarshalText",
 	"babyjub.DecompressSig",
+	"babyjub.SignatureComp.Value",
+	"babyjub.Signature.Value",
+	"babyjub.PublicKey.Value",
+	"babyjub.PublicKeyComp.Value",
 }
 
 func fatalf(format string, args ...interface{}) {
